@@ -1,1 +1,5 @@
 import Bgpfu.Model.Framing
+import Bgpfu.Model.Caps
+import Bgpfu.Model.Rfc6241
+import Bgpfu.Model.Builders
+import Bgpfu.Model.BuildSpec
